@@ -25,6 +25,7 @@ func rulesC05(c *Ctx) {
 	ruleStoreClientElectionID(c)
 	ruleDispatchTable(c) // every announcement on the stream reaches runElection (none is answered from a cache)
 	ruleElectionWriters(c)
+	ruleStateWriters(c, append(append([]writerRow{}, writersServerElection...), writersServerSession...))
 	ruleLockDiscipline(c, lockSel{classes: []string{"Server.elecMu"}})
 	ruleElectionAtomic(c)
 }
